@@ -211,6 +211,7 @@ def run(rep, tier, seed, model_ok=True, effort=1):
                           input=dict(args=args, new=new, want=want), **{"class": "v1-past-date"})
     # derived search patterns: a file that carries the PEP 440 form of the version under {pep440_version} / {pep440_pycalver},
     # for every version pattern the legacy engine maps ({pycalver}, {semver}, the four {year}[{month}]{build}{release} forms)
+    loader_stream(rep, impl)
     derived_stream(rep, impl, r, (4 if tier == "quick" else 40) * effort)
     # chains for {pycalver}
     for start, steps in (("v202001.0999", 60), ("v201712.0001-beta", 40), ("v209912.9997", 8)):
@@ -254,6 +255,30 @@ def run(rep, tier, seed, model_ok=True, effort=1):
 
 
 MAPPED = ["{pycalver}", "{semver}", "v{year}{month}{build}{release}", "{year}{month}{build}{release}", "v{year}{build}{release}", "{year}{build}{release}"]
+
+
+def loader_stream(rep, impl):
+    """the config loader gives every file of a legacy project exactly the patterns configured for it: a glob entry plus an extra entry for one
+    of its files, then a second project with the same patterns in the same process (the same layouts are checked for the new engine in C03/C04)"""
+    from . import project
+    for vp, cur, flag, new in (("{semver}", "1.2.3", "--patch", "1.2.4"), ("{pycalver}", "v202001.1001-beta", "--date=2020-03-05", "v202003.1002-beta")):
+        pep_cur = impl.bv_version.to_pep440(cur)
+        hist = "installed with demo==%s at the time   <- historical line, not configured for this file\n" % pep_cur
+        for round_ in (1, 2):
+            entries = [("src/*.py", ['__version__ = "{version}"'])] + ([("src/a.py", ["demo=={pep440_version}"])] if round_ == 1 else [])
+            contents = {"src/a.py": '__version__ = "%s"\n# pip install demo==%s\n' % (cur, pep_cur), "src/b.py": '__version__ = "%s"\n# %s' % (cur, hist)}
+            prj = project.TempProject(vp, cur, files=dict(entries), contents=contents)
+            with prj:
+                code, out, logs, exc = prj.run(impl, ["update", "--no-fetch", flag])
+                after = prj.snapshot()
+            rep.case(("loader", vp, round_), nontrivial=code == 0)
+            rep.count("loader-glob-plus-entry")
+            got_b = after.get("src/b.py", b"").decode("utf-8")
+            inp = dict(version_pattern=vp, current_version=cur, entries=entries, round=round_, args=["update", "--no-fetch", flag], exit=code, logs=logs[-3:], b_py_after=got_b)
+            if code != 0:
+                rep.violation("update fails on a legacy project with a glob entry%s" % (" and an extra entry for one of its files" if round_ == 1 else " (second project in the same process)"), input=inp, **{"class": "v1-loader"})
+            elif got_b != '__version__ = "%s"\n# %s' % (new, hist):
+                rep.violation("a file of a legacy project was rewritten with a pattern that is not configured for it", input=inp, **{"class": "v1-loader"})
 
 
 def derived_stream(rep, impl, r, rounds):
